@@ -310,3 +310,20 @@ PROPS["C05"] = {
         lane("TestGenerated", "generated", 200, 1200, shards=16, must_classes=["description", "enum-option-info", "service", "topic"]),
     ],
 }
+
+PROPS["C12"] = {
+    "pkg": "c12",
+    "level": "exploration",
+    "technique": "property-based testing (rapid): differential between a reference rule evaluator written from the j5s rule semantics and bufbuild/protovalidate-go on messages of the compiled type, with boundary-directed candidate values",
+    "level_text": ("Single-field declarations (string length/pattern, key id62/uuid/custom/informal, integer bounds x both exclusivity flags x 4 formats, bytes length, "
+                   "bool const, enum defined-only / in / not-in, arrays with min/max/unique and per-item rules; required / optional / plain) are compiled, and for "
+                   "candidate values below / at / above every induced boundary (lengths counted in code points with multi-byte runes, matching and non-matching "
+                   "pattern witnesses, undefined enum numbers, absent vs zero) protovalidate's verdict on a dynamic message must equal the reference verdict: accept iff accept."),
+    "level_note": "Sampled declarations, boundary-complete candidates per declaration. Date/decimal/timestamp/float rules have no protovalidate counterpart and are not judged. For a proto3 field without presence 'absent' is its zero value.",
+    "rule": ("rules: one declaration + 5-20 candidate values per case. Non-trivial: the declaration yields both verdicts (otherwise counted as degenerate). "
+             "Distinct by hash(declaration, candidates)."),
+    "assumptions": ["bounds are inclusive unless the exclusive flag is true; required means present (non-zero for fields without presence); pattern is an RE2 search"],
+    "lanes": [
+        lane("TestRules", "rules", 600, 3000, shards=16, must_classes=["both-verdicts", "kind:integer:INT32", "kind:enum", "kind:array:string"]),
+    ],
+}
